@@ -121,17 +121,20 @@ func (c *Cache) srcFS(p string) (srcFS filesystem.Filespace, src string) {
 }
 
 // Copy duplicate a file or directory
-func (c *Cache) Copy(src, dest string) error {
+func (c *Cache) Copy(src, dest string) (err error) {
 	var srcFS filesystem.Filespace
 	srcFS, src = c.srcFS(src)
 	dest = varutil.CleanPath(dest)
-	c.changeWrite(dest, true)
-	return (fshelper.Copier{
+	if err = (fshelper.Copier{
 		SrcFS:    srcFS,
 		SrcPath:  src,
 		DestFS:   c.bufferFS,
 		DestPath: dest,
-	}).Do()
+	}).Do(); err != nil {
+		return err
+	}
+	c.changeWrite(dest, true)
+	return nil
 }
 
 // CopyDirectory duplicate a directory
@@ -142,7 +145,6 @@ func (c *Cache) CopyDirectory(src, dest string) error {
 	if !srcFS.IsDir(src) {
 		return goaterr.Errorf("Source node must be a directory")
 	}
-	c.changeWrite(dest, true)
 	return c.Copy(src, dest)
 }
 
@@ -154,7 +156,6 @@ func (c *Cache) CopyFile(src, dest string) error {
 	if !srcFS.IsFile(src) {
 		return goaterr.Errorf("Source node must be a file")
 	}
-	c.changeWrite(dest, true)
 	return c.Copy(src, dest)
 }
 
@@ -209,10 +210,13 @@ func (c *Cache) MkdirAll(dest string, filemode os.FileMode) error {
 }
 
 // Writer return a file node writer
-func (c *Cache) Writer(dest string) (filesystem.Writer, error) {
+func (c *Cache) Writer(dest string) (writer filesystem.Writer, err error) {
 	dest = varutil.CleanPath(dest)
+	if writer, err = c.bufferFS.Writer(dest); err != nil {
+		return nil, err
+	}
 	c.changeWrite(dest, true)
-	return c.bufferFS.Writer(dest)
+	return writer, nil
 }
 
 // Reader return a file node reader
@@ -230,10 +234,13 @@ func (c *Cache) ReadFile(src string) ([]byte, error) {
 }
 
 // WriteFile write file data
-func (c *Cache) WriteFile(dest string, data []byte, perm os.FileMode) error {
+func (c *Cache) WriteFile(dest string, data []byte, perm os.FileMode) (err error) {
 	dest = varutil.CleanPath(dest)
+	if err = c.bufferFS.WriteFile(dest, data, perm); err != nil {
+		return err
+	}
 	c.changeWrite(dest, true)
-	return c.bufferFS.WriteFile(dest, data, perm)
+	return nil
 }
 
 // Filespace get directory node and return it as filespace
